@@ -491,7 +491,13 @@ def build_fn(u, fs, log, probe=False):
     entry = "".join("\n        verif_assume_or_diverge(%s);" % c for c in fs.assume_entry)
     for c in fs.assume_entry:
         log.append({"rule": "assume_entry", "fn": fs.path, "cond": c})
-    attrs = "".join("    %s\n" % a for a in fs.attrs)
+    attr_list = list(fs.attrs)
+    has_dec = "decreases" in fs.spec or any("decreases" in t for t in fs.loops.values())
+    if not has_dec and not any("exec_allows_no_decreases_clause" in a for a in attr_list):
+        # termination is claimed only where the unit gives a `decreases`; elsewhere a (newly) recursive or looping
+        # body is still verified for partial correctness instead of being rejected ("undecided")
+        attr_list.append("#[verifier::exec_allows_no_decreases_clause]")
+    attrs = "".join("    %s\n" % a for a in attr_list)
     spec = ("\n" + fs.spec + "\n") if fs.spec.strip() else "\n"
     if fs.imported:
         # imported declarations live in `mod verif_imported`: make them visible to the importing unit
@@ -594,9 +600,15 @@ fn main() {}
 """
 
 
-def assemble(unit_path, probe=False, no_hints=False, extra_requires=None):
-    """Returns (text, info). probe=True replaces every contracted function's ensures by `false`."""
+def assemble(unit_path, probe=False, no_hints=False, extra_requires=None, extra_fns=None):
+    """Returns (text, info). probe=True adds `ensures false` twins.  extra_fns: paths of helper functions that the
+    extracted code calls but the unit does not list (appeared in /repo after the unit was written): they are
+    extracted verbatim without a contract, so callers see no postcondition."""
     u = parse_unit(unit_path)
+    for pth in (extra_fns or []):
+        fs_x = FnSpec(pth)
+        fs_x.auto = True
+        u.entries.append(("fn", fs_x))
     log = []
     lost = []
     parts = [HEADER]
